@@ -59,6 +59,14 @@ CHECKS["C17"] = (
     "DESIGN.md section 2 / C17",
 )
 
+CHECKS["C12"] = (
+    "proptest token/line mutants of repository headers + nesting families + attribute zoo + option sets + path faults, classified by `clang -fsyntax-only`; isolated worker with watchdog; totality oracle",
+    "exploration",
+    "Every generation runs in a separate worker process so that panics, aborts, stack overflows, exit() and hangs are observable. Inputs: all repository headers as written, token- and line-level mutants of them (classified accepted/rejected by the clang binary with the same arguments), 14 nesting families up to depth 200, compositions of unusual declarations (calling conventions, vector/complex/bit-precise types, GNU extensions, C++ template corner cases), repository headers under random builder calls, file-system faults on the input path, and target/edition pairs. Required: Ok for accepted headers, Err(ClangDiagnostic) for rejected ones, the specific error for each path fault and unsupported pair, never a panic or process death.",
+    "clang 14 binary vs libclang 14 classification is assumed equal (missing-include disagreements are inconclusive); hangs are bounded by a 300 s watchdog and reported as inconclusive; option values that are pasted as Rust tokens are generated syntactically valid.",
+    "DESIGN.md section 2 / C12",
+)
+
 NOT_YET = {}
 
 def main():
